@@ -417,6 +417,7 @@ fn pipeline(ctx: &Ctx) -> R {
     p.strukt = true;
     p.list = true;
     p.large_list = true;
+    p.list_view = true;
     p.fsl = true;
     p.map = true;
     p.max_depth = 2;
@@ -530,11 +531,31 @@ fn pipeline(ctx: &Ctx) -> R {
                 };
                 let vb: Vec<V> = idx.iter().map(|i| vb0[*i].clone()).collect();
                 let (mask, sel) = make_filter(ctx, va.len());
-                let r = match arrow_select::zip::zip(&mask, &a, &b) {
+                // either side may be a scalar: one row of a pool array (so it keeps that array's buffers and offset)
+                let scalar_of = |ctx: &Ctx, arr: &ArrayRef, vals: &Vec<V>, which: &'static str| -> Option<(ArrayRef, V)> {
+                    if vals.is_empty() || !ctx.chance(1, 3, which) {
+                        return None;
+                    }
+                    let i = ctx.below(vals.len(), "pipe.zip_scalar_row");
+                    Some((arr.slice(i, 1), vals[i].clone()))
+                };
+                let sa = scalar_of(ctx, &a, &va, "pipe.zip_scalar_a");
+                let sb = scalar_of(ctx, &b0, &vb0, "pipe.zip_scalar_b");
+                let n = va.len();
+                let (va, vb): (Vec<V>, Vec<V>) = (
+                    match &sa { Some((_, v)) => vec![v.clone(); n], None => va },
+                    match &sb { Some((_, v)) => vec![v.clone(); n], None => vb },
+                );
+                if sa.is_some() || sb.is_some() {
+                    ctx.probe(if sa.is_some() && sb.is_some() { "pipeline.zip_two_scalars" } else { "pipeline.zip_one_scalar" });
+                }
+                let da: Box<dyn arrow_array::Datum> = match sa { Some((s, _)) => Box::new(arrow_array::Scalar::new(s)), None => Box::new(a) };
+                let db: Box<dyn arrow_array::Datum> = match sb { Some((s, _)) => Box::new(arrow_array::Scalar::new(s)), None => Box::new(b) };
+                let r = match arrow_select::zip::zip(&mask, da.as_ref(), db.as_ref()) {
                     Ok(r) => r,
                     Err(e) => bail_v!(ctx, "kernel_error", &format!("{comp}.zip/error"), "zip failed on {}: {e}", gen::type_sig(&dt, false)),
                 };
-                (r, (0..va.len()).map(|i| if sel[i] { va[i].clone() } else { vb[i].clone() }).collect())
+                (r, (0..n).map(|i| if sel[i] { va[i].clone() } else { vb[i].clone() }).collect())
             }
             8 => {
                 name = "nullif";
